@@ -3,4 +3,656 @@ import Iscp.Model.SegSpec
 /- helper lemmas for Props/C14.lean -/
 namespace Iscp.Seg
 
+/-! ### header -/
+
+theorem rd32_be32 (n : Nat) (h : n < 4294967296) :
+    rd32 (n / 16777216 % 256) (n / 65536 % 256) (n / 256 % 256) (n % 256) = n := by
+  unfold rd32; omega
+
+theorem rd16_be16 (n : Nat) (h : n < 65536) : rd16 (n / 256 % 256) (n % 256) = n := by
+  unfold rd16; omega
+
+theorem header_roundtrip_lem (d : Dg) (hs : d.seq < 4294967296) (hm : d.maxIdx < 65536) (hi : d.idx < 65536) :
+    decodeDg d.encode = some d := by
+  cases d with
+  | mk s mx i p =>
+    simp only [Dg.encode, be32, be16, List.cons_append, List.nil_append, decodeDg] at *
+    rw [rd32_be32 s hs, rd16_be16 mx hm, rd16_be16 i hi]
+
+theorem header_bytes_lem (d : Dg) : ∀ b ∈ (d.encode.take 8), b < 256 := by
+  intro b hb
+  simp only [Dg.encode, be32, be16, List.cons_append, List.nil_append, List.take_succ_cons,
+    List.take_zero, List.mem_cons, List.not_mem_nil, or_false] at hb
+  omega
+
+theorem short_is_malformed_lem (bs : Bytes) (h : bs.length < 8) : decodeDg bs = none := by
+  match bs, h with
+  | [], _ => rfl
+  | [_], _ => rfl
+  | [_, _], _ => rfl
+  | [_, _, _], _ => rfl
+  | [_, _, _, _], _ => rfl
+  | [_, _, _, _, _], _ => rfl
+  | [_, _, _, _, _, _], _ => rfl
+  | [_, _, _, _, _, _, _], _ => rfl
+  | _ :: _ :: _ :: _ :: _ :: _ :: _ :: _ :: _, h => simp at h; omega
+
+/-! ### split -/
+
+theorem flatten_segPayload (P : Nat) (m : Bytes) (k : Nat) :
+    ∀ n j, j + n = k →
+      (((List.range' j (n + 1)).map (segPayload P m k)).flatten) = m.drop (j * P) := by
+  intro n
+  induction n with
+  | zero =>
+    intro j hj
+    have : j = k := by omega
+    subst this
+    simp [segPayload]
+  | succ n ih =>
+    intro j hj
+    have hne : j ≠ k := by omega
+    rw [List.range'_succ, List.map_cons, List.flatten_cons, ih (j + 1) (by omega)]
+    simp only [segPayload, hne, if_false]
+    have : (j + 1) * P = j * P + P := by rw [Nat.add_mul, Nat.one_mul]
+    rw [this, ← List.drop_drop, List.take_append_drop]
+
+theorem segments_some (P seq : Nat) (m : Bytes) (ds : List Dg) (h : segments P seq m = some ds) :
+    (m.length ≤ P ∧ ds = [⟨seq, 0, 0, m⟩]) ∨
+    (P < m.length ∧ m.length / P ≤ 65535 ∧
+      ds = (List.range (m.length / P + 1)).map fun i => ⟨seq, m.length / P, i, segPayload P m (m.length / P) i⟩) := by
+  unfold segments at h
+  split at h
+  · left; simp_all
+  · right
+    simp only at h
+    split at h
+    · simp at h
+    · simp at h
+      refine ⟨by omega, by omega, h.symm⟩
+
+theorem split_concat_lem (P seq : Nat) (m : Bytes) (ds : List Dg)
+    (h : segments P seq m = some ds) :
+    (ds.map (·.payload)).flatten = m ∧
+    ds.length = (if m.length ≤ P then 1 else m.length / P + 1) ∧
+    (∀ i, (hi : i < ds.length) → ds[i].idx = i ∧ ds[i].maxIdx = ds.length - 1 ∧ ds[i].seq = seq) := by
+  rcases segments_some P seq m ds h with ⟨hle, rfl⟩ | ⟨hlt, hk, rfl⟩
+  · simp [hle]
+  · have hnle : ¬ m.length ≤ P := by omega
+    refine ⟨?_, by simp [hnle], ?_⟩
+    · rw [List.map_map]
+      have := flatten_segPayload P m (m.length / P) (m.length / P) 0 (by omega)
+      simpa [List.range_eq_range', Function.comp_def] using this
+    · intro i hi
+      simp
+
+theorem oversize_refused_lem (P seq : Nat) (m : Bytes) :
+    segments P seq m = none ↔ (P < m.length ∧ 65535 < m.length / P) := by
+  unfold segments
+  split
+  · simp; omega
+  · simp only
+    split
+    · simp; omega
+    · simp; omega
+
+theorem sent_headers_fit_lem (P seq : Nat) (m : Bytes) (ds : List Dg)
+    (h : segments P seq m = some ds) : ∀ d ∈ ds, d.maxIdx < 65536 ∧ d.idx < 65536 ∧ d.idx ≤ d.maxIdx := by
+  rcases segments_some P seq m ds h with ⟨hle, rfl⟩ | ⟨hlt, hk, rfl⟩
+  · simp
+  · intro d hd
+    simp only [List.mem_map, List.mem_range] at hd
+    obtain ⟨i, hi, rfl⟩ := hd
+    simp only
+    omega
+
+/-! ### sequence numbers -/
+
+theorem seqAt_eq (i : Nat) : seqAt i = i % 4294967296 := by
+  induction i with
+  | zero => simp [seqAt, seqNext, seqInit]
+  | succ i ih => simp only [seqAt, seqNext, ih]; omega
+
+theorem seq_fresh_lem : seqAt 0 = 0 ∧
+    ∀ i j, i < j → j < i + 4294967296 → seqAt i ≠ seqAt j := by
+  refine ⟨by simp [seqAt_eq], ?_⟩
+  intro i j h1 h2
+  rw [seqAt_eq, seqAt_eq]
+  omega
+
+/-! ### association lists -/
+
+theorem alErase_cons_self {α} (k : Nat) (v : α) (r : List (Nat × α)) :
+    alErase k ((k, v) :: r) = alErase k r := by
+  simp [alErase]
+
+theorem alErase_cons_ne {α} (k k₀ : Nat) (v : α) (r : List (Nat × α)) (h : k₀ ≠ k) :
+    alErase k ((k₀, v) :: r) = (k₀, v) :: alErase k r := by
+  simp [alErase, h]
+
+theorem alLookup_cons_self {α} (k : Nat) (v : α) (r : List (Nat × α)) :
+    alLookup k ((k, v) :: r) = some v := by
+  simp [alLookup]
+
+theorem alLookup_cons_ne {α} (k k₀ : Nat) (v : α) (r : List (Nat × α)) (h : k₀ ≠ k) :
+    alLookup k ((k₀, v) :: r) = alLookup k r := by
+  simp [alLookup, h]
+
+theorem alLookup_erase_self {α} (k : Nat) (l : List (Nat × α)) : alLookup k (alErase k l) = none := by
+  induction l with
+  | nil => rfl
+  | cons e r ih =>
+    obtain ⟨k', v⟩ := e
+    by_cases h : k' = k
+    · subst h; rw [alErase_cons_self]; exact ih
+    · rw [alErase_cons_ne _ _ _ _ h, alLookup_cons_ne _ _ _ _ h]; exact ih
+
+theorem alLookup_erase_ne {α} (k k' : Nat) (l : List (Nat × α)) (hne : k' ≠ k) :
+    alLookup k' (alErase k l) = alLookup k' l := by
+  induction l with
+  | nil => rfl
+  | cons e r ih =>
+    obtain ⟨k₀, v⟩ := e
+    by_cases h : k₀ = k
+    · subst h
+      rw [alErase_cons_self, alLookup_cons_ne _ _ _ _ (Ne.symm hne)]; exact ih
+    · rw [alErase_cons_ne _ _ _ _ h]
+      by_cases h' : k₀ = k'
+      · subst h'; rw [alLookup_cons_self, alLookup_cons_self]
+      · rw [alLookup_cons_ne _ _ _ _ h', alLookup_cons_ne _ _ _ _ h']; exact ih
+
+theorem alLookup_insert_self {α} (k : Nat) (v : α) (l : List (Nat × α)) :
+    alLookup k (alInsert k v l) = some v := by
+  simp [alInsert, alLookup]
+
+theorem alLookup_insert_ne {α} (k k' : Nat) (v : α) (l : List (Nat × α)) (hne : k' ≠ k) :
+    alLookup k' (alInsert k v l) = alLookup k' l := by
+  have : k ≠ k' := fun h => hne h.symm
+  simp [alInsert, alLookup, this, alLookup_erase_ne k k' l hne]
+
+theorem alLookup_mem {α} (k : Nat) (v : α) (l : List (Nat × α)) (h : alLookup k l = some v) :
+    (k, v) ∈ l := by
+  induction l with
+  | nil => simp [alLookup] at h
+  | cons e r ih =>
+    obtain ⟨k₀, v₀⟩ := e
+    by_cases hk : k₀ = k
+    · simp [alLookup, hk] at h
+      simp [hk, h]
+    · simp [alLookup, hk] at h
+      exact List.mem_cons_of_mem _ (ih h)
+
+/-! ### reassembly_lem -/
+
+/-- slot content for segment `x` given the datagrams seen so far -/
+def fSeen (seen : List Dg) (x : Dg) : Option Bytes := if x ∈ seen then some x.payload else none
+
+/-- what `split_concat_lem` gives about the segments of sequence number `s` -/
+structure WF (msgOf : Nat → Bytes) (segsOf : Nat → List Dg) (s : Nat) : Prop where
+  pos : 0 < (segsOf s).length
+  fields : ∀ i, (hi : i < (segsOf s).length) →
+    (segsOf s)[i].idx = i ∧ (segsOf s)[i].maxIdx = (segsOf s).length - 1 ∧ (segsOf s)[i].seq = s
+  cat : ((segsOf s).map (·.payload)).flatten = msgOf s
+
+theorem WF.seq_of_mem {msgOf segsOf s} (h : WF msgOf segsOf s) {x : Dg} (hx : x ∈ segsOf s) : x.seq = s := by
+  obtain ⟨i, hi, rfl⟩ := List.getElem_of_mem hx
+  exact (h.fields i hi).2.2
+
+/-- receiver-state invariant for one sequence number whose segments are `l` -/
+def SlotInv (l seen : List Dg) (o : Option Slot) : Prop :=
+  (((∀ x ∈ l, x ∉ seen) ∨ (∀ x ∈ l, x ∈ seen)) → o = none) ∧
+  (¬ ((∀ x ∈ l, x ∉ seen) ∨ (∀ x ∈ l, x ∈ seen)) →
+    ∃ sl, o = some sl ∧ sl.msgs = l.map (fSeen seen) ∧ sl.segCount = sl.msgs.countP Option.isSome)
+
+theorem map_fSeen_congr (l seen seen' : List Dg) (h : ∀ x ∈ l, (x ∈ seen ↔ x ∈ seen')) :
+    l.map (fSeen seen) = l.map (fSeen seen') := by
+  apply List.map_congr_left
+  intro x hx
+  simp [fSeen, h x hx]
+
+theorem slotInv_congr (l seen seen' : List Dg) (o : Option Slot) (h : ∀ x ∈ l, (x ∈ seen ↔ x ∈ seen'))
+    (hi : SlotInv l seen o) : SlotInv l seen' o := by
+  have h1 : (∀ x ∈ l, x ∉ seen) ↔ (∀ x ∈ l, x ∉ seen') :=
+    ⟨fun a x hx hs => a x hx ((h x hx).2 hs), fun a x hx hs => a x hx ((h x hx).1 hs)⟩
+  have h2 : (∀ x ∈ l, x ∈ seen) ↔ (∀ x ∈ l, x ∈ seen') :=
+    ⟨fun a x hx => (h x hx).1 (a x hx), fun a x hx => (h x hx).2 (a x hx)⟩
+  unfold SlotInv at hi ⊢
+  rw [← h1, ← h2, ← map_fSeen_congr l seen seen' h]
+  exact hi
+
+theorem countP_set_none (l : List (Option Bytes)) (i : Nat) (p : Bytes) (h : l[i]? = some none) :
+    (l.set i (some p)).countP Option.isSome = l.countP Option.isSome + 1 := by
+  induction l generalizing i with
+  | nil => simp at h
+  | cons x r ih =>
+    cases i with
+    | zero =>
+      simp at h
+      subst h
+      simp
+    | succ i =>
+      simp at h
+      simp [List.countP_cons, ih i h]
+      omega
+
+theorem map_fSeen_set (l seen : List Dg) (d : Dg) (hidx : ∀ j, (hj : j < l.length) → l[j].idx = j)
+    (hd : d ∈ l) : (l.map (fSeen seen)).set d.idx (some d.payload) = l.map (fSeen (d :: seen)) := by
+  obtain ⟨i, hi, rfl⟩ := List.getElem_of_mem hd
+  rw [hidx i hi]
+  apply List.ext_getElem (by simp)
+  intro j h1 h2
+  have hj : j < l.length := by simpa using h2
+  by_cases hij : i = j
+  · subst hij
+    simp [fSeen]
+  · have hne : l[j] ≠ l[i] := by
+      intro he
+      have := hidx j hj
+      rw [he, hidx i hi] at this
+      exact hij this
+    simp [hij, fSeen, hne]
+
+theorem build_all (l seen : List Dg) (h : ∀ x ∈ l, x ∈ seen) :
+    build (l.map (fSeen seen)) = (l.map (·.payload)).flatten := by
+  unfold build
+  rw [List.map_map]
+  congr 1
+  apply List.map_congr_left
+  intro x hx
+  simp [fSeen, h x hx]
+
+theorem countP_fSeen_eq_length (l seen : List Dg) :
+    (l.map (fSeen seen)).countP Option.isSome = l.length ↔ ∀ x ∈ l, x ∈ seen := by
+  have : (l.map (fSeen seen)).length = l.length := by simp
+  rw [← this, List.countP_eq_length]
+  simp only [List.mem_map, forall_exists_index, and_imp, forall_apply_eq_imp_iff₂]
+  constructor
+  · intro h x hx
+    have := h x hx
+    unfold fSeen at this
+    split at this
+    · assumption
+    · simp at this
+  · intro h x hx
+    simp [fSeen, h x hx]
+
+theorem map_fSeen_none (l seen : List Dg) (h : ∀ x ∈ l, x ∉ seen) :
+    l.map (fSeen seen) = List.replicate l.length none := by
+  rw [List.eq_replicate_iff]
+  refine ⟨by simp, ?_⟩
+  intro b hb
+  simp only [List.mem_map] at hb
+  obtain ⟨x, hx, rfl⟩ := hb
+  simp [fSeen, h x hx]
+
+theorem add_step (l seen : List Dg) (d : Dg) (slot0 : Slot) (e : Nat)
+    (hidx : ∀ j, (hj : j < l.length) → l[j].idx = j) (hd : d ∈ l) (hns : d ∉ seen)
+    (hm : slot0.msgs = l.map (fSeen seen)) (hc : slot0.segCount = slot0.msgs.countP Option.isSome) :
+    (slot0.segCount + 1 = (l.map (fSeen (d :: seen))).countP Option.isSome) ∧
+    (({ slot0 with expiredAt := e } : Slot).add d.idx d.payload) =
+      (⟨slot0.segCount + 1, l.map (fSeen (d :: seen)), e⟩,
+        if ∀ x ∈ l, x ∈ d :: seen then some ((l.map (·.payload)).flatten) else none) := by
+  have hlt : d.idx < l.length := by
+    obtain ⟨i, hi, rfl⟩ := List.getElem_of_mem hd
+    rw [hidx i hi]; exact hi
+  have hget : slot0.msgs[d.idx]? = some none := by
+    obtain ⟨i, hi, rfl⟩ := List.getElem_of_mem hd
+    rw [hm, hidx i hi]
+    simp [hi, fSeen, hns]
+  have hset := map_fSeen_set l seen d hidx hd
+  have hcnt : slot0.segCount + 1 = (l.map (fSeen (d :: seen))).countP Option.isSome := by
+    rw [← hset, ← hm, countP_set_none _ _ _ hget, ← hc]
+  refine ⟨hcnt, ?_⟩
+  unfold Slot.add
+  have h1 : ¬ (slot0.msgs.length ≤ d.idx) := by rw [hm]; simp; exact hlt
+  rw [if_neg h1]
+  simp only [hm, hset]
+  have hlen : (l.map (fSeen (d :: seen))).length = l.length := by simp
+  by_cases hall : ∀ x ∈ l, x ∈ d :: seen
+  · have := (countP_fSeen_eq_length l (d :: seen)).2 hall
+    rw [if_pos (by omega), build_all _ _ hall, if_pos hall]
+  · have : ¬ (l.map (fSeen (d :: seen))).countP Option.isSome = l.length :=
+      fun h => hall ((countP_fSeen_eq_length l (d :: seen)).1 h)
+    rw [if_neg (by omega), if_neg hall]
+
+theorem receiveDg_of_slot0 (rb : RB) (now : Nat) (d : Dg) (slot0 : Slot)
+    (h : alLookup d.seq rb.bufs = some slot0 ∨
+      (alLookup d.seq rb.bufs = none ∧ d.idx ≤ d.maxIdx ∧
+        slot0 = ⟨0, List.replicate (slotCount d.maxIdx) none, 0⟩)) :
+    rb.receiveDg now d =
+      match ({ slot0 with expiredAt := now + rb.expiry } : Slot).add d.idx d.payload with
+      | (_, some m) => ({ rb with bufs := alErase d.seq rb.bufs }, .msg d.seq m)
+      | (s', none) => ({ rb with bufs := alInsert d.seq s' rb.bufs }, .none) := by
+  rcases h with h | ⟨h, hle, rfl⟩
+  · simp only [RB.receiveDg, h]
+    rfl
+  · have : ¬ d.idx > d.maxIdx := by omega
+    simp only [RB.receiveDg, h, this, if_false]
+    rfl
+
+theorem receiveDg_step (msgOf : Nat → Bytes) (segsOf : Nat → List Dg) (rb : RB) (now : Nat) (d : Dg)
+    (seen : List Dg) (hwf : WF msgOf segsOf d.seq) (hd : d ∈ segsOf d.seq) (hns : d ∉ seen)
+    (inv : ∀ s, WF msgOf segsOf s → SlotInv (segsOf s) seen (alLookup s rb.bufs)) :
+    (rb.receiveDg now d).2 =
+      (if (segsOf d.seq).all (fun x => decide (x ∈ d :: seen)) then RecvOut.msg d.seq (msgOf d.seq)
+       else RecvOut.none) ∧
+    ∀ s, WF msgOf segsOf s → SlotInv (segsOf s) (d :: seen) (alLookup s (rb.receiveDg now d).1.bufs) := by
+  have hidx : ∀ j, (hj : j < (segsOf d.seq).length) → (segsOf d.seq)[j].idx = j :=
+    fun j hj => (hwf.fields j hj).1
+  have hdi : d.idx < (segsOf d.seq).length ∧ d.maxIdx = (segsOf d.seq).length - 1 := by
+    obtain ⟨i, hi, he⟩ := List.getElem_of_mem hd
+    have := hwf.fields i hi
+    rw [he] at this
+    exact ⟨by omega, this.2.1⟩
+  -- the slot the receiver starts from
+  have hslot : ∃ slot0 : Slot,
+      (alLookup d.seq rb.bufs = some slot0 ∨
+        (alLookup d.seq rb.bufs = none ∧ d.idx ≤ d.maxIdx ∧
+          slot0 = ⟨0, List.replicate (slotCount d.maxIdx) none, 0⟩)) ∧
+      slot0.msgs = (segsOf d.seq).map (fSeen seen) ∧
+      slot0.segCount = slot0.msgs.countP Option.isSome := by
+    by_cases hc : (∀ x ∈ segsOf d.seq, x ∉ seen) ∨ (∀ x ∈ segsOf d.seq, x ∈ seen)
+    · have hnone := (inv _ hwf).1 hc
+      have hc' : ∀ x ∈ segsOf d.seq, x ∉ seen := by
+        rcases hc with hc | hc
+        · exact hc
+        · exact absurd (hc d hd) hns
+      refine ⟨⟨0, List.replicate (slotCount d.maxIdx) none, 0⟩, Or.inr ⟨hnone, by omega, rfl⟩, ?_, ?_⟩
+      · rw [map_fSeen_none _ _ hc']
+        have : slotCount d.maxIdx = (segsOf d.seq).length := by
+          unfold slotCount; have := hwf.pos; omega
+        simp only [this]
+      · symm
+        rw [List.countP_eq_zero]
+        intro a ha
+        rw [List.eq_of_mem_replicate ha]
+        simp
+    · obtain ⟨sl, h1, h2, h3⟩ := (inv _ hwf).2 hc
+      exact ⟨sl, Or.inl h1, h2, h3⟩
+  obtain ⟨slot0, hlk, hm, hcnt⟩ := hslot
+  obtain ⟨hcnt', hadd⟩ := add_step (segsOf d.seq) seen d slot0 (now + rb.expiry) hidx hd hns hm hcnt
+  have hrecv := receiveDg_of_slot0 rb now d slot0 hlk
+  rw [hadd] at hrecv
+  -- frame: other sequence numbers are not affected
+  have hframe : ∀ s, WF msgOf segsOf s → s ≠ d.seq → ∀ o, SlotInv (segsOf s) seen o →
+      SlotInv (segsOf s) (d :: seen) o := by
+    intro s hs hne o ho
+    apply slotInv_congr _ _ _ _ _ ho
+    intro x hx
+    have : x ≠ d := by
+      intro he; subst he; exact hne (hs.seq_of_mem hx).symm
+    simp [this]
+  by_cases hall : ∀ x ∈ segsOf d.seq, x ∈ d :: seen
+  · rw [if_pos hall] at hrecv
+    simp only at hrecv
+    rw [hrecv]
+    refine ⟨?_, ?_⟩
+    · have : (segsOf d.seq).all (fun x => decide (x ∈ d :: seen)) = true := by
+        simpa using hall
+      rw [if_pos this, hwf.cat]
+    · intro s hs
+      by_cases hne : s = d.seq
+      · subst hne
+        simp only [alLookup_erase_self]
+        exact ⟨fun _ => rfl, fun h => absurd (Or.inr hall) h⟩
+      · simp only [alLookup_erase_ne _ _ _ hne]
+        exact hframe s hs hne _ (inv s hs)
+  · rw [if_neg hall] at hrecv
+    simp only at hrecv
+    rw [hrecv]
+    refine ⟨?_, ?_⟩
+    · have : ¬ (segsOf d.seq).all (fun x => decide (x ∈ d :: seen)) = true := by
+        simpa using hall
+      rw [if_neg this]
+    · intro s hs
+      by_cases hne : s = d.seq
+      · subst hne
+        simp only [alLookup_insert_self]
+        refine ⟨fun h => ?_, fun _ => ⟨_, rfl, rfl, hcnt'⟩⟩
+        rcases h with h | h
+        · exact absurd (List.mem_cons_self) (h d hd)
+        · exact absurd h hall
+      · simp only [alLookup_insert_ne _ _ _ _ hne]
+        exact hframe s hs hne _ (inv s hs)
+
+theorem run_eq_spec_gen (msgOf : Nat → Bytes) (segsOf : Nat → List Dg) :
+    ∀ (tr : List (Nat × Dg)) (seen : List Dg) (rb : RB),
+      (∀ d ∈ tr.map (·.2), WF msgOf segsOf d.seq) →
+      (∀ d ∈ tr.map (·.2), d ∈ segsOf d.seq) →
+      (tr.map (·.2)).Nodup →
+      (∀ d ∈ tr.map (·.2), d ∉ seen) →
+      (∀ s, WF msgOf segsOf s → SlotInv (segsOf s) seen (alLookup s rb.bufs)) →
+      runDg rb tr = spec msgOf segsOf seen (tr.map (·.2)) := by
+  intro tr
+  induction tr with
+  | nil => intros; rfl
+  | cons e rest ih =>
+    intro seen rb hwf hmem hnd hdis inv
+    obtain ⟨now, d⟩ := e
+    simp only [List.map_cons, List.mem_cons, forall_eq_or_imp, List.nodup_cons] at hwf hmem hnd hdis
+    obtain ⟨h1, h2⟩ := receiveDg_step msgOf segsOf rb now d seen hwf.1 hmem.1 hdis.1 inv
+    simp only [runDg, List.map_cons, spec]
+    rw [h1]
+    congr 1
+    apply ih (d :: seen) _ hwf.2 hmem.2 hnd.2 _ h2
+    intro x hx
+    simp only [List.mem_cons, not_or]
+    exact ⟨fun he => hnd.1 (he ▸ hx), hdis.2 x hx⟩
+
+theorem wf_of_genuine (P : Nat) (msgOf : Nat → Bytes) (segsOf : Nat → List Dg) (tr : List Dg)
+    (g : Genuine P msgOf segsOf tr) : ∀ d ∈ tr, WF msgOf segsOf d.seq := by
+  intro d hd
+  have hs := g.segs d.seq (List.mem_map.2 ⟨d, hd, rfl⟩)
+  obtain ⟨h1, h2, h3⟩ := split_concat_lem P d.seq (msgOf d.seq) (segsOf d.seq) hs
+  refine ⟨?_, h3, h1⟩
+  rw [h2]; split
+  · exact Nat.one_pos
+  · exact Nat.succ_pos _
+
+theorem slotInv_init (l : List Dg) : SlotInv l [] none :=
+  ⟨fun _ => rfl, fun h => absurd (Or.inl (fun _ _ => List.not_mem_nil)) h⟩
+
+theorem reassembly_lem (P : Nat) (msgOf : Nat → Bytes) (segsOf : Nat → List Dg)
+    (tr : List (Nat × Dg)) (expiry : Nat) (g : Genuine P msgOf segsOf (tr.map (·.2))) :
+    runDg ⟨[], expiry⟩ tr = spec msgOf segsOf [] (tr.map (·.2)) := by
+  apply run_eq_spec_gen msgOf segsOf tr [] ⟨[], expiry⟩ (wf_of_genuine P msgOf segsOf _ g) g.mem g.nodup
+  · intro d _; exact List.not_mem_nil
+  · intro s _; exact slotInv_init _
+
+/-! ### spec-only facts -/
+
+/-- the outputs of `spec` that are messages of sequence number `s` -/
+def isMsgOf (s : Nat) (o : RecvOut) : Bool :=
+  match o with | .msg s' _ => s' = s | .none => false
+
+theorem spec_count_zero (msgOf : Nat → Bytes) (segsOf : Nat → List Dg) (s : Nat) :
+    ∀ (tr seen : List Dg), (∀ d ∈ tr, d.seq ≠ s) →
+      ((spec msgOf segsOf seen tr).filter (isMsgOf s)).length = 0 := by
+  intro tr
+  induction tr with
+  | nil => intros; rfl
+  | cons d rest ih =>
+    intro seen h
+    simp only [List.mem_cons, forall_eq_or_imp] at h
+    have hd : d.seq ≠ s := h.1
+    simp only [spec]
+    split
+    · simp only [List.filter_cons, isMsgOf, hd, decide_false]
+      exact ih _ h.2
+    · simp only [List.filter_cons, isMsgOf]
+      exact ih _ h.2
+
+theorem spec_count_one (msgOf : Nat → Bytes) (segsOf : Nat → List Dg) (s : Nat)
+    (hseq : ∀ d ∈ segsOf s, d.seq = s) :
+    ∀ (tr seen : List Dg), (∀ d ∈ tr, d ∈ segsOf d.seq) → tr.Nodup → (∀ d ∈ tr, d ∉ seen) →
+      (∀ d ∈ segsOf s, d ∈ seen ∨ d ∈ tr) → ¬ (∀ d ∈ segsOf s, d ∈ seen) →
+      ((spec msgOf segsOf seen tr).filter (isMsgOf s)).length = 1 := by
+  intro tr
+  induction tr with
+  | nil =>
+    intro seen _ _ _ hall hnot
+    exact absurd (fun d hd => (hall d hd).resolve_right List.not_mem_nil) hnot
+  | cons d rest ih =>
+    intro seen hmem hnd hdis hall hnot
+    simp only [List.mem_cons, forall_eq_or_imp, List.nodup_cons] at hmem hnd hdis
+    have hdis' : ∀ x ∈ rest, x ∉ d :: seen := by
+      intro x hx
+      simp only [List.mem_cons, not_or]
+      exact ⟨fun he => hnd.1 (he ▸ hx), hdis.2 x hx⟩
+    have hall' : ∀ x ∈ segsOf s, x ∈ d :: seen ∨ x ∈ rest := by
+      intro x hx
+      rcases hall x hx with h | h
+      · exact Or.inl (List.mem_cons_of_mem _ h)
+      · rcases List.mem_cons.1 h with h | h
+        · exact Or.inl (h ▸ List.mem_cons_self)
+        · exact Or.inr h
+    simp only [spec]
+    by_cases hds : d.seq = s
+    · by_cases hfull : ∀ x ∈ segsOf s, x ∈ d :: seen
+      · have hc : (segsOf d.seq).all (fun x => decide (x ∈ d :: seen)) = true := by
+          rw [hds]; simpa using hfull
+        rw [if_pos hc]
+        have hrest : ∀ x ∈ rest, x.seq ≠ s := by
+          intro x hx he
+          have := hmem.2 x hx
+          rw [he] at this
+          exact hdis' x hx (hfull x this)
+        simp only [List.filter_cons, isMsgOf, hds, decide_true, if_true, List.length_cons]
+        rw [spec_count_zero msgOf segsOf s rest _ hrest]
+      · have hc : ¬ (segsOf d.seq).all (fun x => decide (x ∈ d :: seen)) = true := by
+          rw [hds]; simpa using hfull
+        rw [if_neg hc]
+        simp only [List.filter_cons, isMsgOf]
+        exact ih _ hmem.2 hnd.2 hdis' hall' hfull
+    · have hfull : ¬ ∀ x ∈ segsOf s, x ∈ d :: seen := by
+        intro h
+        apply hnot
+        intro x hx
+        rcases List.mem_cons.1 (h x hx) with he | he
+        · exact absurd (he ▸ hseq x hx) hds
+        · exact he
+      have : ((if (segsOf d.seq).all (fun x => decide (x ∈ d :: seen)) then
+          RecvOut.msg d.seq (msgOf d.seq) else RecvOut.none) :: spec msgOf segsOf (d :: seen) rest).filter
+            (isMsgOf s) = (spec msgOf segsOf (d :: seen) rest).filter (isMsgOf s) := by
+        split <;> simp [isMsgOf, hds]
+      rw [this]
+      exact ih _ hmem.2 hnd.2 hdis' hall' hfull
+
+theorem complete_once_lem (msgOf : Nat → Bytes) (segsOf : Nat → List Dg) (tr : List Dg) (s : Nat)
+    (hmem : ∀ d ∈ tr, d ∈ segsOf d.seq) (hseq : ∀ d ∈ segsOf s, d.seq = s) (hne : segsOf s ≠ [])
+    (hnd : tr.Nodup) (hall : ∀ d ∈ segsOf s, d ∈ tr) :
+    ((spec msgOf segsOf [] tr).filter (isMsgOf s)).length = 1 := by
+  apply spec_count_one msgOf segsOf s hseq tr [] hmem hnd (fun _ _ => List.not_mem_nil)
+    (fun d hd => Or.inr (hall d hd))
+  intro h
+  cases hl : segsOf s with
+  | nil => exact hne hl
+  | cons x r => exact absurd (h x (hl ▸ List.mem_cons_self)) List.not_mem_nil
+
+theorem incomplete_nothing_gen (msgOf : Nat → Bytes) (segsOf : Nat → List Dg) (s : Nat)
+    (d0 : Dg) (h0 : d0 ∈ segsOf s) :
+    ∀ (tr seen : List Dg), d0 ∉ tr → d0 ∉ seen →
+      ∀ o ∈ spec msgOf segsOf seen tr, ∀ bs, o ≠ .msg s bs := by
+  intro tr
+  induction tr with
+  | nil => intro seen _ _ o ho; simp [spec] at ho
+  | cons d rest ih =>
+    intro seen hmiss hseen o ho bs
+    simp only [List.mem_cons, not_or] at hmiss
+    simp only [spec, List.mem_cons] at ho
+    rcases ho with ho | ho
+    · subst ho
+      split
+      · rename_i hc
+        intro he
+        injection he with he1 he2
+        rw [he1] at hc
+        simp only [List.all_eq_true, decide_eq_true_eq] at hc
+        rcases hc d0 h0 with h | h
+        · exact hmiss.1 h
+        · exact hseen h
+      · intro he; cases he
+    · apply ih (d :: seen) hmiss.2 _ o ho bs
+      simp only [List.mem_cons, not_or]
+      exact ⟨hmiss.1, hseen⟩
+
+/-! ### small facts about the receiver -/
+
+theorem malformed_discarded_lem (rb : RB) (now : Nat) :
+    (∀ bs, bs.length < 8 → rb.receive now bs = (rb, .none)) ∧
+    (∀ d : Dg, d.maxIdx < d.idx → alLookup d.seq rb.bufs = none → rb.receiveDg now d = (rb, .none)) := by
+  constructor
+  · intro bs h
+    simp only [RB.receive, short_is_malformed_lem bs h]
+  · intro d h1 h2
+    have : d.idx > d.maxIdx := h1
+    simp only [RB.receiveDg, h2, this, if_true]
+
+theorem out_of_range_no_output_lem (rb : RB) (now : Nat) (d : Dg) (s : Slot)
+    (h : alLookup d.seq rb.bufs = some s) (hi : s.msgs.length ≤ d.idx) :
+    (rb.receiveDg now d).2 = .none ∧
+    ∃ s', alLookup d.seq (rb.receiveDg now d).1.bufs = some s' ∧ s'.msgs = s.msgs ∧ s'.segCount = s.segCount := by
+  have hr := receiveDg_of_slot0 rb now d s (Or.inl h)
+  have hadd : ({ s with expiredAt := now + rb.expiry } : Slot).add d.idx d.payload =
+      ({ s with expiredAt := now + rb.expiry }, none) := by
+    unfold Slot.add
+    rw [if_pos hi]
+  rw [hadd] at hr
+  simp only at hr
+  rw [hr]
+  exact ⟨rfl, _, alLookup_insert_self _ _ _, rfl, rfl⟩
+
+theorem expiry_lem (rb : RB) (now : Nat) :
+    (∀ s sl, alLookup s (rb.removeExpired now).bufs = some sl → ¬ (now > sl.expiredAt)) ∧
+    (∀ e ∈ rb.bufs, ¬ (now > e.2.expiredAt) → e ∈ (rb.removeExpired now).bufs) := by
+  constructor
+  · intro s sl h
+    have := alLookup_mem _ _ _ h
+    simp only [RB.removeExpired, List.mem_filter, decide_eq_true_eq] at this
+    exact this.2
+  · intro e he h
+    simp only [RB.removeExpired, List.mem_filter, decide_eq_true_eq]
+    exact ⟨he, h⟩
+
+theorem add_expiredAt (s : Slot) (i : Nat) (p : Bytes) : (s.add i p).1.expiredAt = s.expiredAt := by
+  unfold Slot.add
+  split
+  · rfl
+  · simp only
+    split <;> rfl
+
+theorem touch_sets_deadline_lem (rb : RB) (now : Nat) (d : Dg) (sl : Slot)
+    (h : alLookup d.seq (rb.receiveDg now d).1.bufs = some sl) :
+    sl.expiredAt = now + rb.expiry := by
+  have key : ∀ slot0 : Slot,
+      (alLookup d.seq rb.bufs = some slot0 ∨
+        (alLookup d.seq rb.bufs = none ∧ d.idx ≤ d.maxIdx ∧
+          slot0 = ⟨0, List.replicate (slotCount d.maxIdx) none, 0⟩)) →
+      sl.expiredAt = now + rb.expiry := by
+    intro slot0 hs
+    have hr := receiveDg_of_slot0 rb now d slot0 hs
+    have he := add_expiredAt { slot0 with expiredAt := now + rb.expiry } d.idx d.payload
+    generalize ({ slot0 with expiredAt := now + rb.expiry } : Slot).add d.idx d.payload = r at hr he
+    obtain ⟨s', o⟩ := r
+    cases o with
+    | some m =>
+      simp only at hr
+      rw [hr] at h
+      simp only [alLookup_erase_self] at h
+      cases h
+    | none =>
+      simp only at hr
+      rw [hr] at h
+      simp only [alLookup_insert_self, Option.some.injEq] at h
+      subst h
+      exact he
+  cases hl : alLookup d.seq rb.bufs with
+  | some s0 => exact key s0 (Or.inl hl)
+  | none =>
+    by_cases hm : d.idx ≤ d.maxIdx
+    · exact key _ (Or.inr ⟨hl, hm, rfl⟩)
+    · have := (malformed_discarded_lem rb now).2 d (by omega) hl
+      rw [this, hl] at h
+      cases h
+
 end Iscp.Seg
